@@ -466,8 +466,8 @@ func rulePatternOneInterpreter(c *Ctx) {
 					globSites = append(globSites, r)
 					continue
 				}
-				if strings.HasPrefix(nme, "fmt.") || strings.Contains(nme, "Error") {
-					continue
+				if strings.HasPrefix(nme, "fmt.") || strings.Contains(nme, "Error") || strings.HasPrefix(nme, "strconv.Quote") || strings.HasPrefix(nme, "strconv.AppendQuote") {
+					continue // rendered for a message, a log line or a span tag (%q and strconv.Quote alike)
 				}
 				if b, isB := x.Common().Value.(*ssa.Builtin); isB && b.Name() == "len" {
 					// its size may bound a cache; the text is not looked at — but the size must not
